@@ -103,7 +103,7 @@ Definition denoted_key (base u : string) : option string :=
 Definition explains (k : N) : list N :=
   match k with
   | 1 => [1; 2] | 2 => [3] | 3 => [1; 2; 3] | 4 => [1; 2] | 6 => [4] | 7 => [4] | 8 => [4]
-  | 9 => [5] | 10 => [6]
+  | 9 => [5]
   | _ => []
   end.
 
@@ -180,14 +180,9 @@ Definition def_text_join (base : string) (files : list lfile) (links : list link
                         (* … or holds a drive-letter-like directory name (`C|`, `a:`), which Url::join's `..` does not leave *)
                         join_reinterprets_key rel || existsb drive_letter (split_on SEP rel)
                     | _, _ => false end) links.
-(* K10: an inline link is keyed by its url as written (GraphInline::ref_key), not by the note it
-   names from the linking file's directory *)
-Definition inline_keyed_raw (files : list lfile) (links : list link) : bool :=
-  existsb (fun l => l_inline l && is_ref_url (l_url l) &&
-                    match nth_error files (l_from l) with
-                    | Some f => negb (oeqb (Some (strip_md (l_url l)))
-                                           (match link_target (f_comps f) (l_url l) with Some t => Some (file_key t) | None => None end))
-                    | None => false end) links.
+(* (K10, F-C14-inline-dir: an inline link was keyed by its url as written (GraphInline::ref_key), not by the
+   note it names from the linking file's directory.  Repaired: `to_graph_inline` keeps the key the url names
+   from the note's directory; the class is gone, a failure of sub-property 6 on an inline link is a VIOLATION.) *)
 
 (* Which go-to-definition the tree under test has: [AsFound] = /repo HEAD (relative_to_full_path joins
    text onto a URL); [Fixed] once fix-c14-definition-uri.patch is applied (VERIF_C14_DEF=fixed tries it
@@ -209,9 +204,9 @@ Definition run_links (v dv : variant) (base : string) (files : list lfile) (link
     flag 6 (forallb (fun g => refs_ok files links g (f_refs g) && refs_ok files links g (f_refs2 g)) files) in
   (* class 9 (F-C14-def-uri: the definition URI built by joining text onto a URL) is repaired (a61b14e):
      a failure of sub-property 5 is no longer excused *)
-  let cls := flag 10 (negb (inline_keyed_raw files links)) in
-  let explained := flat_map explains cls in
-  let cls := if forallb (fun p => existsb (N.eqb p) explained) prop then cls else [] in
+  (* class 10 (F-C14-inline-dir: inline links keyed by their url as written) is repaired as well: no class is
+     left for the link leg *)
+  let cls : list N := [] in
   let nontriv := existsb (fun l => match link_file files l, nth_error files (l_from l) with
                                    | Some _, Some f => Nat.ltb 1 (length (f_comps f))
                                    | _, _ => false end) links in
